@@ -33,6 +33,7 @@ def registry():
         model_py.register6(_REG, PROPERTIES)
         model_py.register7(_REG, PROPERTIES)
         model_py.register8(_REG, PROPERTIES)
+        model_py.register9(_REG, PROPERTIES)
         from . import util_py
         util_py.register(_REG, PROPERTIES)
         from . import paths_py
@@ -41,6 +42,8 @@ def registry():
         names_py.register(_REG, PROPERTIES)
         from . import refmgr_py
         refmgr_py.register(_REG, PROPERTIES)
+        from . import reference_py
+        reference_py.register(_REG, PROPERTIES)
         from . import serialize_py
         serialize_py.register(_REG, PROPERTIES)
         from . import registry_py
